@@ -101,6 +101,11 @@ def make_spec(r, heights, nrow, strategy, changes=None, reservations=None):
 
 def generate(g, i):
     r = g.r
+    if r.random() < 0.15:
+        # every row the same multi-line height, capacity often not a multiple of it
+        h = r.choice([2, 2, 3, 4])
+        n = r.randint(4, 12)
+        return make_spec(r, [h] * n, r.randint(h + 1, 3 * h + 3), "plain", None, reservations=r.choice([0, 1, 3]))
     n = r.choice([1, 2, 3, 4, 5, 6, 8, 10, 14, 20])
     heights = [r.choice([1, 1, 1, 2, 2, 3]) for _ in range(n)]
     nrow = r.randint(2, 14)
